@@ -28,7 +28,9 @@ Definition model_agrees (c : case) : bool :=
   end.
 
 (* does the implementation's behaviour satisfy the property itself on this case?  A panic never
-   does; where the reference makes no demand anything else is accepted. *)
+   does; where the reference makes no demand anything else is accepted; where it defines rows,
+   the cardinality error of an uncorrelated scalar subquery evaluated up front is accepted too
+   (Model/SubqSpec.v eager_error). *)
 Definition spec_ok (c : case) : bool :=
   match c with
   | Case ws db ch o =>
@@ -38,7 +40,12 @@ Definition spec_ok (c : case) : bool :=
           match qeval db [] (chain_qry ch) with
           | RUndef => true
           | RErr => match o with AErr => true | _ => false end
-          | ROk rs => match o with ARows os => bag_eqb rs os | _ => false end
+          | ROk rs =>
+              match o with
+              | ARows os => bag_eqb rs os
+              | AErr => match snd ch with [] => eager_error db (fst ch) | _ => false end
+              | _ => false
+              end
           end
       end
   end.
